@@ -244,8 +244,10 @@ func (g *Gen) Tx(kind string) core.Transaction {
 		tx = &core.L1HandlerTransaction{Version: ver(0), ContractAddress: g.Felt(), EntryPointSelector: g.Felt(),
 			Nonce: g.Felt(), CallData: g.Felts(1 + g.R.Intn(3))}
 	case "deploy":
+		// core.TransactionHash does not compute legacy DEPLOY hashes (it returns the field as is), so
+		// give the transaction a hash of its own; a nil/zero hash would not be storable.
 		tx = &core.DeployTransaction{Version: ver(0), ContractAddressSalt: g.Felt(), ContractAddress: g.Felt(),
-			ClassHash: g.Felt(), ConstructorCallData: g.Felts(g.R.Intn(3))}
+			ClassHash: g.Felt(), ConstructorCallData: g.Felts(g.R.Intn(3)), TransactionHash: g.Felt()}
 	default:
 		panic("chainkit: unknown tx kind " + kind)
 	}
